@@ -16,8 +16,11 @@ ALL = ['C%02d' % i for i in range(1, 21)]
 
 
 def sh(cmd, **kw):
+    import os
+    # evidence of runs against a patched tree goes to scratch
+    env = dict(os.environ, VERIF_EVIDENCE_DIR='/tmp/try_seed_evidence')
     return subprocess.run(cmd, shell=True, capture_output=True, text=True,
-                          **kw)
+                          env=env, **kw)
 
 
 def main():
